@@ -289,6 +289,11 @@ def run_wiring(ctx):
             ctx.count("run_nov_raised_" + pu.exc_class(exc))
             continue
         ctx.traces += 1
+        import xarray as _xr
+        if not isinstance(r3, _xr.Dataset):
+            ctx.violation("right_not_empty", f"pipeline without validation returned {type(r3).__name__} instead of an empty "
+                          f"right dataset (steps {[n_ for n_, k, _ in names if k != 'validation']})", case)
+            continue
         if len(r3.data_vars) != 0:
             ctx.violation("right_not_empty", f"pipeline without validation returned right variables {list(r3.data_vars)}", case)
         only_last_nofill = val and "interpolated_disparity" not in val[0][1] and names[-1][1] == "validation"
